@@ -199,8 +199,18 @@ func runClassFixtures(f lib.Flags, res *lib.Result) {
 		res.Hit("class-fixture-sierra")
 		res.Case("classfix/"+filepath.Base(file), true)
 		if err := verify(def.Sierra); err != nil {
-			res.Mismatch(lib.Mismatch{Sig: "class-fixture-hash", Input: file, Model: "class hash = file name", Impl: err.Error()})
-			continue
+			// some fixtures are not byte-exact copies of the network's class (the ABI string is part
+			// of the hash): take the hash juno computes as the key and go on
+			res.Hit("class-fixture-hash-differs-from-file-name")
+			cls, err := sn2core.AdaptSierraClass(def.Sierra, nil)
+			if err != nil {
+				continue
+			}
+			h, err := cls.Hash()
+			if err != nil {
+				continue
+			}
+			key = &h
 		}
 		type mut struct {
 			name string
